@@ -40,7 +40,9 @@ Docs == <<
 
 Fmts == {"json", "pretty", "flow", "block"}
 Lays == {[ind |-> i, quote |-> q, comments |-> c, blanks |-> b] :
-           i \in {2, 4}, q \in {"plain", "single", "double"}, c \in BOOLEAN, b \in BOOLEAN}
+           i \in {0, 2, 4}, q \in {"plain", "single", "double"}, c \in BOOLEAN, b \in BOOLEAN}
+\* tab indentation (ind = 0) exists for pretty JSON only (YAML block style forbids tabs)
+LayOk(fmt, lay) == lay.ind = 0 => (fmt = "pretty" /\ lay.quote = "double" /\ ~lay.comments /\ ~lay.blanks)
 
 \* spellings for the scalar table
 Spellings == <<
@@ -71,7 +73,7 @@ SeqTags == << <<71,101,116,65,116,116>>, <<83,117,98>>, <<83,101,108,101,99,116>
 VARIABLES mode, a, b, c
 vars == <<mode, a, b, c>>
 Init ==
-  \/ mode = "doc" /\ a \in 1 .. Len(Docs) /\ b \in Fmts /\ c \in Lays
+  \/ mode = "doc" /\ a \in 1 .. Len(Docs) /\ b \in Fmts /\ c \in {l \in Lays : LayOk(b, l)}
   \/ mode = "scalar" /\ a \in 1 .. Len(Spellings) /\ b \in Styles /\ c = 0
   \/ mode = "tag" /\ a \in 1 .. Len(SingleTags) /\ b = "single" /\ c = 0
   \/ mode = "tag" /\ a \in 1 .. Len(SeqTags) /\ b = "seq" /\ c = 0
